@@ -1,6 +1,7 @@
 package props
 
 import (
+	"fmt"
 	"testing"
 
 	"pgregory.net/rapid"
@@ -13,7 +14,79 @@ import (
 
 // genCall draws one function call together with the document its arguments
 // refer to.
+// callIdioms: first / last / rest / reversed / each of a result, written
+// directly on a call (what an implementation is tempted to fuse with the call).
+var callIdioms = [][]ast.Step{{{Kind: ast.SIndex, Index: -1}}, {{Kind: ast.SIndex, Index: 0}}, {{Kind: ast.SIndex, Index: -1}}, {{Kind: ast.SIndex, Index: 0}}, {{Kind: ast.SIndex, Index: 1}}, {{Kind: ast.SSlice, Start: ast.I64(1)}}, {{Kind: ast.SSlice, Stop: ast.I64(1)}},
+	{{Kind: ast.SSlice, Stop: ast.I64(-1)}}, {{Kind: ast.SSlice, Stride: ast.I64(-1)}}, {{Kind: ast.SListStar}}, {{Kind: ast.SFlatten}}, {{Kind: ast.SIndex, Index: -1}, {Kind: ast.SIndex, Index: -1}}, {{Kind: ast.SIndex, Index: -2}},
+	{{Kind: ast.SListStar}, {Kind: ast.SIndex, Index: 0}}, {{Kind: ast.SFilter, Cond: ast.Cur()}}}
+
+// stringRelCall draws a call of a string function whose string arguments
+// stand in every length relation to one another: equal, one a prefix, suffix
+// or repetition of the other, the second longer than the first by one or by
+// several bytes, either of them empty or a single (multi-byte) character.
+func stringRelCall(t *rapid.T) (ast.Expr, jv.Val, string) {
+	subj := gen.Pick(t, "rel-subject", []string{"", "a", "é", "ab", "aé", "abc", "a,b", "😀", "a😀", "x y", "aaa", "abab", "a", "b"})
+	rs := []rune(subj)
+	rels := []string{subj, subj + "x", "x" + subj, subj + subj, " - ", ".tar.gz", "é😀", "", "::", ", ", "--"}
+	if len(rs) > 0 {
+		rels = append(rels, string(rs[:1]), string(rs[len(rs)-1:]), string(rs[:len(rs)-1])+"z")
+	}
+	other := gen.Pick(t, "rel-other", rels)
+	var members []jv.Member
+	str := func(label, v string) ast.Arg {
+		switch rapid.IntRange(0, 3).Draw(t, "rel-supply-"+label) {
+		case 0:
+			return ast.A(ast.RawS(v))
+		case 1:
+			return ast.A(ast.Lit(jv.VStr(v)))
+		}
+		members = append(members, jv.Member{K: label, V: jv.VStr(v)})
+		return ast.A(ast.F(label))
+	}
+	num := func(label string) ast.Arg {
+		return ast.A(ast.Lit(jv.VInt(int64(rapid.IntRange(-2, len(rs)+2).Draw(t, "rel-int-"+label)))))
+	}
+	name := gen.Pick(t, "rel-fn", []string{"contains", "starts_with", "ends_with", "find_first", "find_last", "replace", "split", "split", "trim", "trim_left", "trim_right", "join", "pad_left", "pad_right"})
+	args := []ast.Arg{str("s", subj), str("u", other)}
+	switch name {
+	case "find_first", "find_last":
+		for k := rapid.IntRange(0, 2).Draw(t, "rel-extra"); k > 0; k-- {
+			args = append(args, num(fmt.Sprint("i", k)))
+		}
+	case "replace":
+		args = append(args, str("r", gen.Pick(t, "rel-repl", []string{"", "z", other + other, subj})))
+		if rapid.Bool().Draw(t, "rel-count") {
+			args = append(args, ast.A(ast.Lit(jv.VInt(int64(rapid.IntRange(0, 3).Draw(t, "rel-n"))))))
+		}
+	case "split":
+		if rapid.IntRange(0, 2).Draw(t, "rel-count") == 0 {
+			args = append(args, ast.A(ast.Lit(jv.VInt(int64(rapid.IntRange(0, 3).Draw(t, "rel-n"))))))
+		}
+	case "trim", "trim_left", "trim_right":
+		if rapid.IntRange(0, 3).Draw(t, "rel-default") == 0 {
+			args = args[:1]
+		}
+	case "join":
+		members = append(members, jv.Member{K: "items", V: jv.VArr([]jv.Val{jv.VStr(subj), jv.VStr(subj), jv.VStr("")}[:rapid.IntRange(0, 3).Draw(t, "rel-items")])})
+		args = []ast.Arg{str("u", other), ast.A(ast.F("items"))}
+	case "pad_left", "pad_right":
+		pad := "-"
+		if or := []rune(other); len(or) > 0 {
+			pad = string(or[:1])
+		}
+		args = []ast.Arg{str("s", subj), ast.A(ast.Lit(jv.VInt(int64(rapid.IntRange(0, len(rs)+3).Draw(t, "rel-width"))))), str("p", pad)}
+	}
+	call := ast.Call(name, args...)
+	if rapid.Bool().Draw(t, "rel-idiom") {
+		call = call.With(gen.Pick(t, "rel-idiomsteps", callIdioms)...)
+	}
+	return call, jv.VObj(members), name
+}
+
 func genCall(t *rapid.T) (ast.Expr, jv.Val, string) {
+	if gen.Chance(t, "stringrel", 1, 8) {
+		return stringRelCall(t)
+	}
 	f := gen.FnGen{T: t}
 	name := gen.Pick(t, "fn", model.FuncNames)
 	if gen.Chance(t, "unknown", 1, 60) {
@@ -88,6 +161,11 @@ func genCall(t *rapid.T) (ast.Expr, jv.Val, string) {
 		args[i] = ast.A(f.Supply(v, i, &members))
 	}
 	var e ast.Expr = ast.Call(name, args...)
+	if gen.Chance(t, "callidiom", 1, 5) {
+		// first / last / rest / reversed / each of the result, written directly
+		// on the call (what an implementation is tempted to fuse with the call)
+		e = ast.Call(name, args...).With(gen.Pick(t, "callidiomsteps", callIdioms)...)
+	}
 	// expression references may use a variable of the caller's scope
 	usesVar := false
 	ast.Walk(e, func(x ast.Expr) {
